@@ -106,6 +106,10 @@ def ch_write_soon(eng, recv, args, result):
 
 
 class TaskHook:
+    def on_contract_raise(self, eng, exc=None, qual=None, node=None):
+        if exc == "OSError" and eng.cur_func.split("@")[0].endswith("Task.service"):
+            eng.state.ghost["oserror_in_service"] = True       # a socket error surfaced while the response was being produced
+
     def on_join(self, eng, sep=None, lst=None, res=None, node=None):
         if strval(sep) == "\r\n":
             m = eng.state.lists[lst.lid]
@@ -142,6 +146,7 @@ def install(reg):
     reg.classes[PARSER].invariants = []
     reg.install_std_specs()
     reg.elem_preds.update({"hdr_ok": pred_hdr_ok, "not_hop": pred_not_hop, "no_crlf": pred_no_crlf, "not_cl": pred_not_cl})
+    reg.spec_funcs["oserror_in_service"] = lambda eng: VBool(bool(eng.state.ghost.get("oserror_in_service", False)))
     reg.spec_funcs.update({"no_crlf": no_crlf, "has_body": has_body_spec, "wire_endswith": wire_endswith, "final": final, "chunk_of": chunk_of, "writes": writes})
     reg.add_class(ClassSpec(SRVM, fields={"adj": Obj("adjustments.Adjustments"), "application": Opaque("app")}))
     reg.add_class(ClassSpec(CHM, fields={"server": Obj(SRVM), "adj": Obj("adjustments.Adjustments"), "wire": Bytes, "connected": Bool, "addr": Opaque("addr")},
@@ -205,6 +210,8 @@ def install(reg):
         modifies=["self.wrote_header", "self.content_bytes_written", "self.response_headers", "self.close_on_finish", "self.chunked_response",
                   "self.channel.wire", "self.status", "self.complete", "self.content_length"]))
     reg.add(FuncContract(T + ".service", requires=[IDENT], raises=["channel.ClientDisconnected", "Exception", "BaseException:opaque", "OSError", "RuntimeError", "UnicodeEncodeError"],
+        # whether the error is re-raised (log_socket_errors) or swallowed, the connection is not reused after it
+        ensures=[("C09-a-socket-error-during-the-response-closes-the-connection", "implies(oserror_in_service(), self.close_on_finish)")],
         ensures_exc=[("C03-socket-error-closes", "implies(isinstance(exc, OSError), self.close_on_finish)")]))
 
     install_execute(reg, IDENT, CLREQ)
